@@ -799,6 +799,11 @@ package avro
 //@      && (vval(b, i) < 0 ==> blk(c, b, i) == blk(c, b, items(c, b, vend(b, vend(b, i)), -vval(b, i))))
 //@ axiom items_unfold(c ptr, b bytes, j int, k int64): (k <= 0 ==> items(c, b, j, k) == j) && (k > 0 ==> items(c, b, j, k) == items(c, b, cend(c.itemCodec, b, j), k - 1))
 
+// INPUT ASSUMPTION (not a fact about the code): a block written with a byte-size prefix declares the exact size of
+// its items.  Skip trusts the declared size (that is what it is for); the equality of the skipped extent with the
+// decoded extent (C04) is therefore stated for such inputs.  Used only by (*arrayCodec).Skip and (*MapCodec).Skip.
+//@ axiom block_size_exact(c ptr, b bytes, i int): vval(b, i) < 0 ==> items(c, b, vend(b, vend(b, i)), -vval(b, i)) == vend(b, vend(b, i)) + int(vval(b, vend(b, i)))
+
 //@ type *arrayCodec : dsz = 24 ; wfc = this != nil && this.itemCodec != nil && wfc(this.itemCodec) && this.itemType != nil && data(this.itemType) != nil && dsz(this.itemCodec) == isz(this) && 0 <= isz(this) && isz(this) < 1<<22 ; \
 //@      cend(b, i) = blk(this, b, i) ; wfval(p) = rdable(p, 24) && 0 <= memint(uintptr(p)+8, 8) && memint(uintptr(p)+8, 8) < 1<<40 \
 //@        && (forall k int :: 0 <= k && k < memint(uintptr(p)+8, 8) ==> wfval(this.itemCodec, mem64(p) + uint64(k * isz(this))))
@@ -875,3 +880,101 @@ package avro
 //@   after Read#1 assert hD(p) == hd0 && hL(p) == hl0 && hC(p) == hc0
 //@   after Read#1 assert zeroed(uintptr(hd0) + uintptr((hl0 + 1) * sz), (hc0 - hl0 - 1) * sz)
 //@   after Read#1 apply sub_range_disjoint(uint64(uintptr(p)), 24, hD(p), uint64(hC(p) * sz), uint64((hL(p) + 1) * sz), uint64((hC(p) - (hL(p) + 1)) * sz)) when sz > 0
+
+//@ func (*arrayCodec).Skip
+//@   implements Codec.Skip
+//@   let i0 := r.i, b0 := r.buf
+//@   requires wfRB(r) && wfc(asiface(rc))
+//@   ensures [C04] err == nil ==> r.i == blk(rc, b0, i0)
+//@   modifies r.i
+//@   loop 1 invariant wfRB(r) && r.buf == b0 && i0 <= r.i
+//@   loop 1 invariant [C04] blk(rc, b0, i0) == blk(rc, b0, r.i)
+//@   loop 1 uses blk_unfold(rc, b0, r.i)
+//@   loop 1 uses block_size_exact(rc, b0, r.i)
+//@   loop 1 decreases len(b0) - r.i
+//@   loop 2 invariant wfRB(r) && r.buf == b0 && i0 <= r.i && 0 <= count && len(b0) - r.i < loopdec(1)
+//@   loop 2 invariant [C04] blk(rc, b0, i0) == blk(rc, b0, items(rc, b0, r.i, count))
+//@   loop 2 uses items_unfold(rc, b0, r.i, count)
+//@   loop 2 decreases count
+
+//@ func (*arrayCodec).New
+//@   implements Codec.New
+//@   let i0 := r.i, b0 := r.buf
+//@   requires wfRBS(r) && wfc(asiface(rc))
+//@   ensures [C05,C20,C03,C04] wfRBS(r) && r.i == i0 && r.buf == b0 && sameobj(b0)
+//@   ensures [C05,C20,C11] res != nil && rawalloc(res, 24) && rawfresh(res, 24) && zeroed(res, 24)
+//@   modifies r.rb.types, type resourceType, M[0, 0]
+
+// ================================================================ buffer.go: ResourceBank (C10)
+// Two levels.  Call sites use the allocator-like contract of (*ReadBuf).Alloc / (*ResourceBank).Alloc (trusted there:
+// a slot handed out by the bank is treated as a fresh allocation).  The bodies are verified against the `impl` views
+// below, which state what makes that abstraction right: the representation invariant wfBank is preserved, the slot
+// returned is index old(len) of the type's block (so no slot is handed out twice between two Close calls), it lies
+// inside the block, it is zeroed, no other raw memory changes, a grown block is fresh, and Close only resets lengths.
+
+//@ spec wfT(t ptr) bool = t.ptyp != nil && 0 <= t.len && t.len <= t.cap && t.cap < 1<<40 && t.size == rtypesz(t.ptyp) && 0 <= t.size && t.size < 1<<40 \
+//@      && (t.cap > 0 ==> t.array != nil && rawalloc(t.array, t.cap * t.size))
+//@ spec wfBank(rb ptr) bool = rb != nil && (forall i int :: 0 <= i && i < len(rb.types) ==> wfT(rb.types[i]))
+//@ spec capsBelow(rb ptr, bound int) bool = forall i int :: 0 <= i && i < len(rb.types) ==> rb.types[i].cap < bound
+//@ spec sameT(a ptr, b ptr) bool = a.ptyp == b.ptyp && a.array == b.array && a.cap == b.cap && a.len == b.len && a.size == b.size
+
+//@ func (*ResourceBank).findTyp
+//@   let n0 := len(rb.types)
+//@   requires wfBank(rb) && rtyp != nil && data(rtyp) != nil
+//@   ensures [C10,C06,C05] wfBank(rb) && res != nil && wfT(res) && res.ptyp == data(rtyp)
+//@   ensures [C10] exists i int :: 0 <= i && i < len(rb.types) && res == rb.types[i]
+//@   ensures [C10] n0 <= len(rb.types) && len(rb.types) <= n0 + 1
+//@   ensures [C10,C06,C05] old(capsBelow(rb, 1<<35)) ==> capsBelow(rb, 1<<35) && res.cap < 1<<35
+//     entries that existed keep their contents (the backing array of rb.types may move); a new entry is empty
+//@   ensures [C10] forall j int :: 0 <= j && j < n0 ==> (rb.types[j].ptyp == old(rb.types[j].ptyp) && rb.types[j].array == old(rb.types[j].array) && rb.types[j].cap == old(rb.types[j].cap) && rb.types[j].len == old(rb.types[j].len) && rb.types[j].size == old(rb.types[j].size))
+//@   ensures [C10] len(rb.types) == n0 + 1 ==> res == rb.types[n0] && res.cap == 0 && res.len == 0 && (forall j int :: 0 <= j && j < n0 ==> old(rb.types[j].ptyp) != data(rtyp))
+//@   modifies rb.types, type resourceType
+//@   splitreturns
+//@   loop 1 invariant -1 <= rangeindex && rangeindex < len(rb.types) && len(rb.types) == n0 && wfBank(rb)
+//@   loop 1 invariant forall j int :: 0 <= j && j <= rangeindex ==> rb.types[j].ptyp != data(rtyp)
+//@   loop 1 decreases len(rb.types) - rangeindex
+
+//@ func (*ResourceBank).Alloc
+//@   trusted
+//@   requires rb != nil && rtyp != nil
+//@   ensures [C05,C20,C11,C10] res != nil && rawalloc(res, rtypesz(data(rtyp))) && rawfresh(res, rtypesz(data(rtyp))) && zeroed(res, rtypesz(data(rtyp)))
+//@   modifies rb.types, type resourceType, M[0, 0]
+
+//@ view impl of (*ResourceBank).Alloc
+//@   props C10, C06, C05
+//@   let sz := rtypesz(data(rtyp))
+//     resource bound (environment): fewer than 2^35 objects of one type are live in a bank, and objects are below 4 MiB
+//@   requires wfBank(rb) && rtyp != nil && data(rtyp) != nil && sz < 1<<22 && capsBelow(rb, 1<<35)
+//@   ensures [C10,C05] wfBank(rb)
+//@   ensures [C10,C05] res != nil && rawalloc(res, sz) && zeroed(res, sz)
+//@   ensures [C10] memframe(res, sz)
+//     exactly one entry i (the one of this type) changes; the slot is index old(len) of its block: either the same
+//     block with len advanced by one, or (when the block was full, or the type is new) a fresh block
+//@   ensures [C10] exists i int :: 0 <= i && i < len(rb.types) && rb.types[i].ptyp == data(rtyp) && rb.types[i].len >= 1 && rb.types[i].len <= rb.types[i].cap \
+//@        && uintptr(res) == uintptr(rb.types[i].array) + uintptr((rb.types[i].len - 1) * sz) \
+//@        && (i < old(len(rb.types)) ==> rb.types[i].len == old(rb.types[i].len) + 1 \
+//@             && ((rb.types[i].array == old(rb.types[i].array) && rb.types[i].cap == old(rb.types[i].cap)) || (old(rb.types[i].len == rb.types[i].cap) && rawfresh(rb.types[i].array, rb.types[i].cap * sz)))) \
+//@        && (i >= old(len(rb.types)) ==> rb.types[i].len == 1 && rawfresh(rb.types[i].array, rb.types[i].cap * sz)) \
+//@        && (forall j int :: 0 <= j && j < old(len(rb.types)) && j != i ==> (rb.types[j].ptyp == old(rb.types[j].ptyp) && rb.types[j].array == old(rb.types[j].array) && rb.types[j].cap == old(rb.types[j].cap) && rb.types[j].len == old(rb.types[j].len) && rb.types[j].size == old(rb.types[j].size)))
+//@   modifies rb.types, type resourceType, M
+//@   before typedmemclr#1 apply umul_add(i, 1, rt.size)
+//@   before typedmemclr#1 apply umul_exact(1, rt.size)
+//@   before typedmemclr#1 apply umul_mono(i, i + 1, rt.size)
+//@   before typedmemclr#1 apply umul_mono(i + 1, rt.cap, rt.size)
+//@   before typedmemclr#1 apply sub_range_in(uint64(uintptr(rt.array)), uint64(rt.cap * rt.size), uint64(i * rt.size), uint64(rt.size)) when rt.size > 0
+
+//@ func (*ReadBuf).Alloc
+//@   requires d != nil && d.rb != nil && rtyp != nil
+//@   ensures [C05,C20,C11,C10] res != nil && rawalloc(res, rtypesz(data(rtyp))) && rawfresh(res, rtypesz(data(rtyp))) && zeroed(res, rtypesz(data(rtyp)))
+//@   modifies d.rb.types, type resourceType, M[0, 0]
+
+//@ func (*ResourceBank).Close
+//@   let n0 := len(rb.types)
+//@   requires wfBank(rb)
+//@   ensures [C10] wfBank(rb) && len(rb.types) == n0 && len(rb.sData) == 0
+//     only the lengths are reset: the blocks (and every byte of raw memory) stay as they are, to be handed out again
+//@   ensures [C10] forall j int :: 0 <= j && j < n0 ==> rb.types[j].len == 0 && rb.types[j].ptyp == old(rb.types[j].ptyp) && rb.types[j].array == old(rb.types[j].array) && rb.types[j].cap == old(rb.types[j].cap) && rb.types[j].size == old(rb.types[j].size)
+//@   modifies rb.sData, type resourceType
+//@   loop 1 invariant -1 <= rangeindex && rangeindex < n0 && len(rb.types) == n0 && wfBank(rb) && rb.types == old(rb.types)
+//@   loop 1 invariant forall j int :: 0 <= j && j < n0 ==> (j <= rangeindex ==> rb.types[j].len == 0) && rb.types[j].ptyp == old(rb.types[j].ptyp) && rb.types[j].array == old(rb.types[j].array) && rb.types[j].cap == old(rb.types[j].cap) && rb.types[j].size == old(rb.types[j].size)
+//@   loop 1 decreases n0 - rangeindex
